@@ -35,6 +35,9 @@ func establishes(fn *ssa.Function, isX func(c *ssa.Call) bool, depth int) bool {
 	if len(rets) == 0 {
 		return false
 	}
+	if deferEstablishes(fn, isX) {
+		return true
+	}
 	for _, ret := range rets {
 		rs := flow.RetResults(ret)
 		if len(rs) == 0 {
@@ -49,6 +52,9 @@ func establishes(fn *ssa.Function, isX func(c *ssa.Call) bool, depth int) bool {
 		}
 		// returned value is the result of an X call: nil => X succeeded
 		if c, ok := ev.(*ssa.Call); ok && (isX(c) || establishes(flow.Callee(c), isX, depth+1)) {
+			continue
+		}
+		if fw, ok := flow.Forwarded(ev).(*ssa.Call); ok && (isX(fw) || establishes(flow.Callee(fw), isX, depth+1)) {
 			continue
 		}
 		if !successDominates(fn, ret.Block(), isX, depth) {
@@ -587,7 +593,7 @@ func readerGuard(e *Env, p *load.Program, f *ssa.Function, conds []flow.Cond, at
 			// n == len(buf) / n == 64
 			if nRes != nil && pair[0] == nRes {
 				if lc, ok := pair[1].(*ssa.Call); ok {
-					if bi, ok := lc.Call.Value.(*ssa.Builtin); ok && bi.Name() == "len" && lc.Call.Args[0] == buf {
+					if bi, ok := lc.Call.Value.(*ssa.Builtin); ok && bi.Name() == "len" && (sameBuffer(lc.Call.Args[0], buf) || sameArray(lc.Call.Args[0], buf)) {
 						fullOK = true
 					}
 				}
@@ -596,7 +602,7 @@ func readerGuard(e *Env, p *load.Program, f *ssa.Function, conds []flow.Cond, at
 				}
 			}
 			// hash == string(buf)
-			if cv, ok := pair[1].(*ssa.Convert); ok && cv.X == buf {
+			if cv, ok := pair[1].(*ssa.Convert); ok && sameBuffer(cv.X, buf) {
 				if tracesTo(p, load.PkgProfiler, pair[0], isHashValue, 0) {
 					eqOK = true
 				}
@@ -617,4 +623,113 @@ func failEdgeReturnsErrorAllow(e *Env, p *load.Program, rule, key string, call *
 	extraPure = allow
 	defer func() { extraPure = old }()
 	return failEdgeReturnsError(e, p, rule, key, call, nilFirst)
+}
+
+
+// sameBuffer: the same slice value, or two whole slices of the same local array (go/ssa does not share them).
+func sameBuffer(a, b ssa.Value) bool {
+	if a == b {
+		return true
+	}
+	sa, ok1 := a.(*ssa.Slice)
+	sb, ok2 := b.(*ssa.Slice)
+	if !ok1 || !ok2 {
+		return false
+	}
+	whole := func(s *ssa.Slice) bool { return s.Low == nil && s.Max == nil }
+	if !whole(sa) || !whole(sb) || sa.X != sb.X {
+		return false
+	}
+	// equal upper bounds (both absent or the same constant)
+	if sa.High == nil && sb.High == nil {
+		return true
+	}
+	if sa.High != nil && sb.High != nil {
+		ka, oka := flow.ConstInt(sa.High)
+		kb, okb := flow.ConstInt(sb.High)
+		return oka && okb && ka == kb
+	}
+	return false
+}
+
+// sameArray: a is the array (pointer) that the slice b covers entirely: len(arr) == len(arr[:]).
+func sameArray(a, b ssa.Value) bool {
+	sb, ok := b.(*ssa.Slice)
+	if !ok || sb.Low != nil || sb.High != nil || sb.Max != nil {
+		return false
+	}
+	if a == sb.X {
+		return true
+	}
+	if ld, ok := a.(*ssa.UnOp); ok && ld.X == sb.X {
+		return true
+	}
+	return false
+}
+
+
+// deferEstablishes: the function has a named error result and an unconditionally deferred closure of the form
+// `if e := X(); result == nil { result = e }`: whatever the body returns, a nil final result means X succeeded.
+func deferEstablishes(fn *ssa.Function, isX func(c *ssa.Call) bool) bool {
+	rets := flow.Returns(fn)
+	for _, b := range fn.Blocks {
+		for _, in := range b.Instrs {
+			df, ok := in.(*ssa.Defer)
+			if !ok {
+				continue
+			}
+			mc, ok := df.Call.Value.(*ssa.MakeClosure)
+			if !ok {
+				continue
+			}
+			// deferred on every path to a return
+			all := true
+			for _, ret := range rets {
+				if !flow.InstrDominates(df, ret) {
+					all = false
+				}
+			}
+			if !all {
+				continue
+			}
+			cl, ok := mc.Fn.(*ssa.Function)
+			if !ok {
+				continue
+			}
+			for i, bnd := range mc.Bindings {
+				al, ok := bnd.(*ssa.Alloc)
+				if !ok || i >= len(cl.FreeVars) || !flow.IsErrorType(al.Type().Underlying().(*types.Pointer).Elem()) {
+					continue
+				}
+				// al must be the function's error result cell
+				isRes := false
+				for _, ret := range rets {
+					if n := len(ret.Results); n > 0 {
+						if ld, ok := ret.Results[n-1].(*ssa.UnOp); ok && ld.X == ssa.Value(al) {
+							isRes = true
+						}
+					}
+				}
+				if w, mono := flow.DeferredResultWrites(al); !isRes || !w || !mono {
+					continue
+				}
+				fv := cl.FreeVars[i]
+				for _, r2 := range *fv.Referrers() {
+					st, ok := r2.(*ssa.Store)
+					if !ok || st.Addr != ssa.Value(fv) {
+						continue
+					}
+					xc, ok := st.Val.(*ssa.Call)
+					if !ok || !isX(xc) {
+						continue
+					}
+					// the only condition on the store is `result == nil`, and the X call is executed before it
+					if len(flow.DomConds(st.Block())) == 1 && flow.InstrDominates(xc, st) {
+						return true
+					}
+				}
+			}
+		}
+	}
+	return false
 }
